@@ -40,18 +40,18 @@ def run(chk):
     chk.prove()
     rng = chk.rng
     cases = []        # (sources list [orig, perm...], descs, draws, modelled)
-    for _ in range(500 if chk.thorough else 90):
+    for _ in range(3000 if chk.thorough else 90):
         g = proggen.Gen(rng, quantum=rng.random() < 0.4, tracked=rng.random() < 0.3)
         parts = g.program_parts()
         ds = evallib.gen_draws(rng)
         ps = perms(rng, len(parts), 3)
         cases.append((["\n".join(parts)] + ["\n".join(parts[i] for i in p) for p in ps], ps, ds, True))
-    for _ in range(600 if chk.thorough else 110):
+    for _ in range(4000 if chk.thorough else 110):
         cp = classgen.ClassProgram(rng, depth=rng.choice([1, 2, 3, 3, 4, 5]), churn=rng.random() < 0.2)
         ps = perms(rng, cp.n_decls(), 3)
         cases.append(([cp.source()] + [cp.source(p) for p in ps], ps, [], False))
     # hierarchies through generic classes: Base <- G<T> <- D, Box<T extends Item>, statics initialised from other classes
-    for _ in range(150 if chk.thorough else 30):
+    for _ in range(1000 if chk.thorough else 30):
         a, b, c3 = rng.randrange(1, 9), rng.randrange(1, 9), rng.randrange(1, 9)
         decls = ["class GBase { public int gb = %d; public constructor() -> GBase = default; public virtual function id() -> int { return gb; } }" % a,
                  "class GMid<T> extends GBase { public int gm = %d; public T held; public constructor() -> GMid<T> { super(); return this; } public override function id() -> int { return gm * 10 + gb; } }" % b,
